@@ -120,10 +120,10 @@ def modifyAt (root : Ty) (top : Bool) (f : Ty → Init → Except Fail Init) :
       | _, _ => .error (.crash "spec: path does not match the type")
     | .union ms _ _ =>
       match ms[k]?, obj with
-      | some (_, mt), .union m cs => do
+      | some (_, mt), .union _ m cs => do
         let old := if m = some k then cs.getD k (zeroOf mt) else zeroOf mt
         let c ← modifyAt root top f mt (done ++ [k]) p old
-        pure (.union (some k) (cs.set k c))
+        pure (.union none (some k) (cs.set k c))
       | _, _ => .error (.crash "spec: path does not match the type")
     | .scalar .. => .error (.crash "spec: path through a scalar")
 
@@ -204,7 +204,7 @@ def descend (root : Ty) (top : Bool) (tok : ITok) : Nat → List Nat → Except 
         | .array e _, .str _ _ esz => strFits e esz
         | .inc e, .str _ _ esz => strFits e esz
         | .struct .., .expr e => e.isStruct
-        | .union .., .expr e => e.isStruct
+        | .union .., .expr e => e.isUnion
         | _, _ => false
       if stop then .ok path
       else match firstSub root top path t with
@@ -234,7 +234,7 @@ def touched (obj : Init) : List Nat → Bool
   | [] => hasExpr obj
   | k :: p =>
     match obj with
-    | .union (some m) cs => if m = k then (match cs[k]? with | some c => touched c p | none => false) else true
+    | .union _ (some m) cs => if m = k then (match cs[k]? with | some c => touched c p | none => false) else true
     | _ => match obj.children[k]? with
       | some c => touched c p
       | none => false
@@ -244,7 +244,7 @@ def switchesUnion : Init → List Nat → Bool
   | _, [] => false
   | obj, k :: p =>
     match obj with
-    | .union (some m) cs => if m = k then (match cs[k]? with | some c => switchesUnion c p | none => false) else true
+    | .union _ (some m) cs => if m = k then (match cs[k]? with | some c => switchesUnion c p | none => false) else true
     | _ => match obj.children[k]? with
       | some c => switchesUnion c p
       | none => false
@@ -280,6 +280,7 @@ def storeTok (root : Ty) (top : Bool) (tok : ITok) (path : List Nat) (t : Ty) (o
     | some e => pure (.leaf (some e))
     | none => .error (.diag "expected an expression")
   | .struct .., .expr e => pure (old.setExpr (some e))
+  | .union .., .expr e => pure (old.setExpr (some e))
   | _, _ => .error (.diag "invalid initializer")
 
 /-- one brace-enclosed initializer list for a current object of type `ty` whose value so far is `obj`;
@@ -344,6 +345,8 @@ def initFull (ty : Ty) (toks : List ITok) : Except Fail Result :=
                                else .error (.diag "invalid initializer")
     | .struct .., .expr e => if e.isStruct then pure ⟨(newInit ty true).setExpr (some e), r, false⟩
                              else .error (.diag "invalid initializer")
+    | .union .., .expr e => if e.isUnion then pure ⟨(newInit ty true).setExpr (some e), r, false⟩
+                            else .error (.diag "invalid initializer")
     | _, _ => .error (.diag "invalid initializer")
   | [] => .error (.diag "expected an expression")
 
